@@ -88,9 +88,9 @@ func (vm *Vm) EXTEND_REVERSED(items py.Tuple) {
 // Adds a traceback to the exc passed in for the current vm state
 func (vm *Vm) AddTraceback(exc *py.ExceptionInfo) {
 	exc.Traceback = &py.Traceback{
-		Next:   exc.Traceback,
-		Frame:  vm.frame,
-		Lasti:  vm.frame.Lasti,
+		Next:  exc.Traceback,
+		Frame: vm.frame,
+		Lasti: vm.frame.Lasti,
 		// frame.Lasti has already been advanced past the
 		// instruction which raised, so its last byte is at Lasti-1
 		Lineno: vm.frame.Code.Addr2Line(vm.frame.Lasti - 1),
@@ -1903,8 +1903,11 @@ func RunFrame(frame *py.Frame) (res py.Object, err error) {
 	// }
 
 	// A generator frame that yielded inside an except handler goes on
-	// handling that exception when it is resumed
-	vm.exc = frame.Exc
+	// handling that exception when it is resumed (generator frames keep
+	// their own record, see above)
+	if vm.exc == &vm.ownExc {
+		vm.ownExc = frame.Exc
+	}
 
 	if int(frame.Lasti) >= len(frame.Code.Code) {
 		return nil, py.ExceptionNewf(py.SystemError, "vm: instruction out of range - code most likely finished already")
@@ -2079,7 +2082,7 @@ func RunFrame(frame *py.Frame) (res py.Object, err error) {
 	}
 
 fast_yield:
-	frame.Exc = vm.exc
+	frame.Exc = *vm.exc
 	// FIXME
 	// if (co->co_flags & CO_GENERATOR) {
 	//     /* The purpose of this block is to put aside the generator's exception
